@@ -94,6 +94,8 @@ fn birkhoff_case(cx: &mut Cx, rng: &mut impl RngCore, n: usize, lagrange: bool, 
         let mult = if lagrange { 1 } else { rng.gen_range(1..=3.min(n - params.len())) };
         for r in 0..mult { params.push((x, r)); }
     }
+    // any order of the pairs is admissible: rank >= 1 rows first force row exchanges in the elimination
+    if rng.gen_bool(0.7) { use rand::seq::SliceRandom; params.shuffle(&mut *rng); }
     if singular && n >= 2 { params[1] = params[0]; }
     // also a non-Hermite but usually admissible pattern: rank gaps
     if !lagrange && !singular && n >= 3 && rng.gen_bool(0.3) { let x = params[n - 1].0; params[n - 1] = (x + Scalar::ONE, 1); }
